@@ -259,17 +259,22 @@ MainLoop:
 			}
 			s.remoteState = state(msg.State)
 			s.remoteMinRxInterval = bfdIntervalToDuration(msg.RequiredMinRxInterval)
+			bootstrapped := false
 			if s.getRemoteDiscriminator() == 0 {
 				s.setRemoteDiscriminator(msg.MyDiscriminator)
 				logger.Debug("Bootstrapped")
+				bootstrapped = true
 			}
 
 			// If we transitioned out of the down state, we cancel the current send timer
 			// (because it might send too late to keep the session up) and set up a new
-			// send timer based on the remote's preferences.
+			// send timer based on the remote's preferences. The same applies if we stay
+			// down but have just learned the remote discriminator (e.g., from a remote
+			// that is still in AdminDown): answer promptly, so that the remote learns our
+			// discriminator before the detection time runs out and the bootstrap is lost.
 			oldState := s.getLocalState()
-			s.transition(ctx, event(s.remoteState))
-			if oldState == stateDown && s.getLocalState() != stateDown {
+			s.transition(ctx, receivedStateEvent(s.remoteState))
+			if oldState == stateDown && (s.getLocalState() != stateDown || bootstrapped) {
 				s.desiredMinTXInterval = s.DesiredMinTxInterval
 				// Cancel any pending send to accelerate the timer.
 				if !sendTimer.Stop() {
@@ -464,6 +469,22 @@ func (s *Session) initMessages() {
 		s.messages = make(chan bfdMessage, s.ReceiveQueueSize)
 		s.closed = make(chan struct{})
 	})
+}
+
+// receivedStateEvent maps the State field of a received BFD control packet to
+// the event that is fed to the state machine. Every state maps to the event of
+// the same name, except AdminDown: eventAdminDown is the *local* administrative
+// action, which parks the session in stateAdminDown until a local eventAdminUp.
+// A remote system signalling AdminDown must instead take the local session
+// Down (RFC 5880, Section 6.8.6: "If received state is AdminDown: If
+// bfd.SessionState is not Down ... Set bfd.SessionState to Down"), from where
+// it re-establishes by itself once the remote system leaves AdminDown. For the
+// state machine these are exactly the transitions of a detection timeout.
+func receivedStateEvent(remote state) event {
+	if remote == stateAdminDown {
+		return eventTimer
+	}
+	return event(remote)
 }
 
 func (s *Session) transition(ctx context.Context, e event) {
